@@ -103,6 +103,37 @@ func init() {
 			"range over a map is modelled with an arbitrary order and a ghost set of visited keys",
 		},
 	}
+	propDefs["C18"] = &PropDef{
+		ID: "C18",
+		Extra: func(c *checkCtx, wb bool) []OblResult {
+			prog, err := c.prog("util/resolve")
+			if err != nil {
+				fmt.Fprintf(os.Stderr, "govc: cannot load util/resolve: %v\n", err)
+				os.Exit(2)
+			}
+			c.fns["resolve.(*APIClient) methods: guarded_by bundledVersionsMu on bundledVersions (lock discipline)"] = true
+			return LockObligations(prog, "deps.dev/util/resolve", "APIClient", "bundledVersions", "bundledVersionsMu", "resolve.NewAPIClient")
+		},
+		Trusted: []string{"the dominance-based lock-discipline check /verif/engine/lock.go; sync.Mutex; gRPC client internals"},
+		Assume: []string{
+			"partial: only the race-freedom of the client's own state is decided (every access to bundledVersions holds bundledVersionsMu, every other APIClient field is written only in NewAPIClient); bundle/alias mapping consistency and equality of graphs with the in-memory client are not covered",
+		},
+	}
+	propDefs["C16"] = &PropDef{
+		ID:   "C16",
+		Pkgs: []pkgRef{{"util/resolve", "deps.dev/util/resolve/pypi"}},
+		Assume: []string{
+			"partial: markerExpr.Eval against the PEP 508 operator table on strings, `extra` membership, and delegation to the version constraint; requirement and marker parsing, name normalisation and the and/or combinators are not covered",
+		},
+	}
+	propDefs["C09"] = &PropDef{
+		ID:   "C09",
+		Pkgs: []pkgRef{semver},
+		Assume: []string{
+			"partial: what a span contains under interval (prerelease-inclusive) matching, and what newSpan builds (unit spans closed, vector spans strictly ordered with the given flags, coinciding ends with an open flag give the empty span); Intersect, canon, Union, Empty and the membership laws themselves are not covered",
+			"compare is used by symbol (its order laws are C01)",
+		},
+	}
 	propDefs["C12"] = &PropDef{
 		ID:   "C12",
 		Pkgs: []pkgRef{{"util/resolve", "deps.dev/util/resolve"}},
